@@ -18,7 +18,7 @@ func init() {
 	register(&Prop{
 		ID:         "C10",
 		Title:      "Attribute values survive a write/read round trip unchanged",
-		Decided:    "every conversion on the write/read path is total over the ten attribute types and discriminates by presence, not by emptiness: (R1) the v2 SDK→internal conversion has a case for every implementer of the SDK's AttributeValue union (enumerated from the SDK package through go/types) and maps member X to field X; (R2) the v2 internal→SDK conversion and the interpreter's MapToObject have a branch per field of types.Item whose presence test is `F != nil`, never `len(F) != 0` (an empty list, map or binary is a value; for the three set types emptiness tests are accepted because DynamoDB has no empty sets); (R3) the four v1 conversions set all ten fields, each from the same-named source field; (R4) each interpreter object's ToDynamoDB sets exactly the field named like the type tag its Type() returns; (R5) the item-copy helpers and the interpreter's working copies copy every entry unconditionally.",
+		Decided:    "every conversion on the write/read path is total over the ten attribute types and discriminates by presence, not by emptiness: (R1) the v2 SDK→internal conversion has a case for every implementer of the SDK's AttributeValue union (enumerated from the SDK package through go/types) and maps member X to field X; (R2) the v2 internal→SDK conversion and the interpreter's MapToObject have a branch per field of types.Item whose presence test is `F != nil`, never `len(F) != 0` (an empty list, map or binary is a value; for the three set types emptiness tests are accepted because DynamoDB has no empty sets); (R3) the four v1 conversions set all ten fields, each from the same-named source field; (R4) each interpreter object's ToDynamoDB sets exactly the field named like the type tag its Type() returns; (R5) the item-copy helpers and the interpreter's working copies copy every entry unconditionally; (R6) every S and N text stored into any of the three representations, in either direction of either client, comes from the same-named slot through pointer copies only – no call that could trim, format or parse it (the value-origin tracer looks into package-local helpers and treats only the SDK pointer helpers as transparent); (R7) the internal representation encodes the type in which field is non-nil: in every data object's ToDynamoDB and in every member case of the SDK v2 → internal conversions the type-carrying field is provably non-nil (must-non-nil analysis over make/literal/append/phis/helper returns/field invariants), also for the empty string, binary, list and map (sets cannot be empty and are left out).",
 		NotDecided: "numeric notation and precision (C12), set/element equality, nesting depth, and fidelity of values inside each branch (value-level).",
 		Rules: []RuleDef{
 			{ID: "R1", Desc: "v2 SDK→internal: exhaustive over the SDK union, member X ↦ field X (T-TABLE)", Run: c10R1},
@@ -26,6 +26,8 @@ func init() {
 			{ID: "R3", Desc: "v1 conversions set all ten fields from the same-named field (T-TABLE)", Run: c10R3},
 			{ID: "R4", Desc: "ToDynamoDB field ↔ Type() tag agreement (T-TABLE)", Run: c10R4},
 			{ID: "R5", Desc: "copies are complete (SSA)", Run: c10R5},
+			{ID: "R6", Desc: "S and N texts are carried verbatim in both directions of both clients (T-FLOW)", Run: c10R6},
+			{ID: "R7", Desc: "the type-carrying field is provably non-nil wherever a typed attribute is written (T-GUARD non-nil)", Run: c10R7},
 		},
 	})
 }
@@ -411,5 +413,217 @@ func c10R5(e *Engine) {
 			}
 		})
 		e.check(ok, "R5", "interp."+name+":working-copy-complete", e.pos(fn.Pos()), "the interpreter's working copy of the item contains every attribute")
+	}
+}
+
+// attrStructKind: is t one of the attribute-value representations (internal Item, SDK v1 AttributeValue, SDK v2 member)?
+func attrStructKind(t types.Type) string {
+	nt := namedOf(t)
+	if nt == nil || nt.Obj().Pkg() == nil {
+		return ""
+	}
+	name, path := nt.Obj().Name(), nt.Obj().Pkg().Path()
+	switch {
+	case name == "Item" && path == modPath+"/types":
+		return "item"
+	case name == "AttributeValue" && strings.Contains(path, "aws-sdk-go/service/dynamodb"):
+		return "v1"
+	case strings.HasPrefix(name, "AttributeValueMember") && strings.Contains(path, "aws-sdk-go-v2/service/dynamodb/types"):
+		return "v2:" + strings.TrimPrefix(name, "AttributeValueMember")
+	}
+	return ""
+}
+
+// c10R6: text scalars are carried verbatim. Every value stored into an S or N slot of any of the three representations,
+// in either client, comes from an S / N / Value slot through pointer copies only – no trimming, formatting, parsing or
+// other call in between (a "normalised" number is a different number text, and as a key a different item).
+func c10R6(e *Engine) {
+	n := 0
+	for _, role := range clientRoles {
+		for _, fn := range e.funcs(role) {
+			instrs(fn, func(in ssa.Instruction) {
+				st, ok := in.(*ssa.Store)
+				if !ok {
+					return
+				}
+				fa, ok := st.Addr.(*ssa.FieldAddr)
+				if !ok {
+					return
+				}
+				kind := attrStructKind(fa.X.Type())
+				f := fieldOf(fa).Name()
+				slot := ""
+				switch {
+				case (kind == "item" || kind == "v1") && (f == "S" || f == "N"):
+					slot = f
+				case (kind == "v2:S" || kind == "v2:N") && f == "Value":
+					slot = strings.TrimPrefix(kind, "v2:")
+				default:
+					return
+				}
+				n++
+				construct := e.fname(fn) + ":" + kind + "." + f + ":verbatim"
+				bad := ""
+				for _, o := range e.origins(st.Val) {
+					o2 := strings.TrimPrefix(o, "deref-of ")
+					switch {
+					case o2 == "const:nil" || o2 == `const:""` || o2 == "zero":
+					case strings.HasPrefix(o2, "field:") && (strings.HasSuffix(o2, "."+slot) || strings.HasSuffix(o2, "AttributeValueMember"+slot+".Value")):
+					case strings.HasPrefix(o2, "param:"):
+						// a copy helper's own parameter when it has no caller in scope
+					default:
+						bad = o
+					}
+				}
+				if bad != "" {
+					e.fail("R6", construct, e.ipos(in), "the %s text stored here is not the source's %s text carried over unchanged (it comes from %s): the value read back differs from the value written", slot, slot, bad)
+				} else {
+					e.pass("R6", construct, e.ipos(in), "%s ← %s", slot, strings.Join(e.origins(st.Val), "|"))
+				}
+			})
+		}
+	}
+	if n < 6 {
+		e.fail("R6", "count:R6", "-", "only %d S/N slot stores found in the two clients", n)
+	}
+}
+
+func isNillable(t types.Type) bool {
+	switch t.Underlying().(type) {
+	case *types.Pointer, *types.Slice, *types.Map, *types.Interface:
+		return true
+	}
+	return false
+}
+
+// c10R7: the internal representation encodes an attribute's type in WHICH field of types.Item is non-nil. Wherever an
+// attribute of a known type is written, that field must be provably non-nil – also for the empty list, map, set, string
+// and binary: (a) every data object's ToDynamoDB, (b) every member case of the SDK v2 → internal conversions.
+func c10R7(e *Engine) {
+	nn := e.newNonNil()
+	n := 0
+	// (a) objects → Item
+	for _, fn := range e.funcs("lang") {
+		if fn.Name() != "ToDynamoDB" || fn.Signature.Recv() == nil {
+			continue
+		}
+		recv := namedOf(fn.Signature.Recv().Type())
+		if recv == nil {
+			continue
+		}
+		typeFn := e.fn("lang", recv.Obj().Name()+".Type")
+		if typeFn == nil {
+			continue
+		}
+		tag := ""
+		for _, r := range returnsOf(typeFn) {
+			tag, _ = constString(retVals(r)[0])
+		}
+		isData := false
+		for _, f := range itemFields {
+			if f == tag {
+				isData = true
+			}
+		}
+		if !isData || strings.HasSuffix(tag, "S") && len(tag) == 2 {
+			continue // sets cannot be empty in DynamoDB: no boundary value whose type could get lost
+		}
+		construct := "lang." + recv.Obj().Name() + ".ToDynamoDB:tag-field-set"
+		bad := ""
+		for _, r := range returnsOf(fn) {
+			u, ok := retVals(r)[0].(*ssa.UnOp)
+			al, isAl := (ssa.Value)(nil), false
+			if ok {
+				_, isAl = u.X.(*ssa.Alloc)
+				al = u.X
+			}
+			if !isAl {
+				bad = "the returned Item is not a locally built value at " + e.ipos(r)
+				continue
+			}
+			found, dominated := false, false
+			for _, ref := range refsOf(al.(*ssa.Alloc)) {
+				fa, ok := ref.(*ssa.FieldAddr)
+				if !ok || fieldOf(fa).Name() != tag {
+					continue
+				}
+				if !isNillable(fieldOf(fa).Type()) {
+					found, dominated = true, true
+					continue
+				}
+				for _, st := range storesTo(fa) {
+					found = true
+					if !nn.val(st.Val, st.Block()) {
+						bad = "the " + tag + " field may be set to nil at " + e.ipos(st)
+					}
+					if idominates(st, r) {
+						dominated = true
+					}
+				}
+			}
+			if !found || !dominated {
+				bad = "the " + tag + " field is not set on every path to the return at " + e.ipos(r)
+			}
+		}
+		n++
+		if bad != "" {
+			e.fail("R7", construct, e.pos(fn.Pos()), "%s: an empty %s is written as an attribute with no type at all (read back as NULL, and rejected by the expression evaluator on the next update)", bad, tag)
+		} else {
+			e.pass("R7", construct, e.pos(fn.Pos()), "the %s field of the Item produced is non-nil on every path", tag)
+		}
+	}
+	// (b) SDK v2 members → Item
+	for _, fn := range e.attrConversions() {
+		if e.fnRole(fn) != "v2" || !strings.Contains(types.TypeString(fn.Signature.Results().At(0).Type(), nil), modPath+"/types.Item") {
+			continue
+		}
+		instrs(fn, func(in ssa.Instruction) {
+			ta, ok := in.(*ssa.TypeAssert)
+			if !ok || !ta.CommaOk {
+				return
+			}
+			nt := namedOf(ta.AssertedType)
+			if nt == nil || !strings.HasPrefix(nt.Obj().Name(), "AttributeValueMember") {
+				return
+			}
+			member := strings.TrimPrefix(nt.Obj().Name(), "AttributeValueMember")
+			if len(member) == 2 && strings.HasSuffix(member, "S") {
+				return // SS, NS, BS: an empty set is not a valid value
+			}
+			var okV ssa.Value
+			for _, ex := range extractOf(ta, 1) {
+				okV = ex
+			}
+			instrs(fn, func(j ssa.Instruction) {
+				st, isSt := j.(*ssa.Store)
+				if !isSt {
+					return
+				}
+				fa, isFA := st.Addr.(*ssa.FieldAddr)
+				if !isFA || !strings.HasSuffix(typeName(fa.X.Type()), "types.Item") || fieldOf(fa).Name() != member || !isNillable(fieldOf(fa).Type()) {
+					return
+				}
+				governed := false
+				for _, cd := range condsAt(j.Block()) {
+					cd = normCond(cd)
+					if cd.V == okV && cd.Val {
+						governed = true
+					}
+				}
+				if !governed {
+					return
+				}
+				n++
+				construct := e.fname(fn) + ":member[" + member + "]:tag-field-set"
+				if nn.val(st.Val, j.Block()) {
+					e.pass("R7", construct, e.ipos(j), "Item.%s is non-nil for every %s member, empty or not", member, member)
+				} else {
+					e.fail("R7", construct, e.ipos(j), "Item.%s may be nil for a %s member (an empty or nil-backed value): the attribute is stored with no type, reads back as NULL and breaks expression evaluation over the item – in this client only", member, member)
+				}
+			})
+		})
+	}
+	if n < 10 {
+		e.fail("R7", "count:R7", "-", "only %d type-tag sites found (object kinds + v2 member cases)", n)
 	}
 }
